@@ -446,9 +446,14 @@ impl<'a, T: QueryToRelationTranslator + Copy + Clone> VisitedQueryRelations<'a, 
         tables_with_joins: &'a Vec<ast::TableWithJoins>,
     ) -> Result<RelationWithColumns> {
         // TODO consider more tables
-        // For now, only consider the first element
+        // For now, only one element is supported
         // It should eventually be cross joined as described in: https://www.postgresql.org/docs/current/queries-table-expressions.html
-        self.try_from_table_with_joins(&tables_with_joins[0])
+        match tables_with_joins.as_slice() {
+            [table_with_joins] => self.try_from_table_with_joins(table_with_joins),
+            _ => Err(Error::other(
+                "FROM must contain exactly one table expression (use CROSS JOIN instead of a comma-separated list)",
+            )),
+        }
     }
 
     /// Extracts named expressions from the from relation and the select items
